@@ -173,6 +173,10 @@ def evaluate(ctx, scn):
     if not ref.started:
         ev.counters["ref_not_started"] += 1
         return ev
+    if not ref.complete:
+        # the reference run neither finished nor failed (it crashed or was cut): nothing to refine against
+        ev.counters["ref_incomplete"] += 1
+        return ev
     clean = scn.get("regime", "clean") == "clean"
     items = plan(scn, ref)
     w = session.build_world(scn, sched=items)
